@@ -155,7 +155,7 @@ func newEventFromUntrustedJSONV2(eventJSON []byte, roomVersion IRoomVersion) (PD
 		return nil, err
 	}
 
-	if err := checkID(res.eventFields.RoomID, "room", '!'); err != nil {
+	if err := checkRoomIDIsValid(res.eventFields.RoomID); err != nil {
 		return nil, err
 	}
 
@@ -288,7 +288,7 @@ func newEventFromTrustedJSONV2(eventJSON []byte, redacted bool, roomVersion IRoo
 		return nil, err
 	}
 
-	if err := checkID(res.eventFields.RoomID, "room", '!'); err != nil {
+	if err := checkRoomIDIsValid(res.eventFields.RoomID); err != nil {
 		return nil, err
 	}
 
@@ -307,7 +307,7 @@ func newEventFromTrustedJSONWithEventIDV2(eventID string, eventJSON []byte, reda
 		return nil, err
 	}
 
-	if err := checkID(res.eventFields.RoomID, "room", '!'); err != nil {
+	if err := checkRoomIDIsValid(res.eventFields.RoomID); err != nil {
 		return nil, err
 	}
 
